@@ -1,4 +1,5 @@
 import Sucds.Proofs.C19GenAux
+import Sucds.Proofs.Reenable
 /-! # C19 over the definitions *generated from the Rust sources*: space bounds of the structures the generated
     constructors build
 
@@ -141,4 +142,39 @@ example : (GenFn.Rank9Sel.build_from_bits ⟨true, false⟩ [true, false, true, 
 example : 100 * (8 * 106) ≤ 132 * 4 + 204800 := by decide
 example : ((GenFn.DacsByte.from_slice ⟨true, false⟩ #[5, 300, 7]).bind fun r => (RS.unwrapRes r).bind fun d =>
       .ok (DacB.sizeInBytes d, d.numLevels)).toOption = some (110, 2) := by decide +kernel
+
+/-! ### Index builders applied to a structure that already has the index
+
+`select1_hints()` / `select0_hints()` / `enable_rank()` / `enable_select0()` may be called on a structure that already
+carries the index (after `build_from_bits(.., true, ..)`, after a round trip, or simply twice). Each builder recomputes
+its table from data no builder touches, so it is idempotent and the builders commute: the value — hence its size and
+every bound above — is what one application gives. (Seed C19-m8: a builder that *appended* to the existing table.) -/
+theorem index_builders_idempotent_model (c : Cfg) :
+    (∀ x y : R9, x.select1Hints = .ok y → y.select1Hints = .ok y) ∧
+    (∀ x y : R9, x.select0Hints c = .ok y → y.select0Hints c = .ok y) ∧
+    (∀ x : R9, x.select1Hints.bind (R9.select0Hints c) = (x.select0Hints c).bind R9.select1Hints) ∧
+    (∀ x : DA, DA.enableRank c (DA.enableRank c x) = DA.enableRank c x) ∧
+    (∀ x : DA, DA.enableSelect0 c (DA.enableSelect0 c x) = DA.enableSelect0 c x) ∧
+    (∀ x : DA, DA.enableSelect0 c (DA.enableRank c x) = DA.enableRank c (DA.enableSelect0 c x)) ∧
+    (∀ e : EF, EF.enableRank c (EF.enableRank c e) = EF.enableRank c e) ∧
+    (∀ s : SA, SA.enableRank c (SA.enableRank c s) = SA.enableRank c s) :=
+  ⟨fun _ _ h => R9.select1Hints_idem h, fun _ _ h => R9.select0Hints_idem c h, fun x => R9.selectHints_comm c x,
+   DA.enableRank_idem c, DA.enableSelect0_idem c, DA.enable_comm c, EF.enableRank_idem c, SA.enableRank_idem c⟩
+
+/-- the same for the builders generated from `rank9sel.rs`, `darray.rs`, `elias_fano.rs`, `sarray.rs` -/
+theorem index_builders_idempotent_generated (c : Cfg) :
+    (∀ x y : R9, x.bv.Inv → x.bv.len + 1023 < 2^64 → x.rs.pairs = (R9Index.buildRank c x.bv).pairs →
+      GenFn.Rank9Sel.select1_hints c x = .ok y → GenFn.Rank9Sel.select1_hints c y = .ok y) ∧
+    (∀ x y : R9, x.bv.Inv → x.bv.len + 1534 < 2^64 → x.rs.pairs = (R9Index.buildRank c x.bv).pairs →
+      GenFn.Rank9Sel.select0_hints c x = .ok y → GenFn.Rank9Sel.select0_hints c y = .ok y) ∧
+    (∀ x : DA, x.bv.Inv → x.bv.len < 2^64 →
+      (GenFn.DArray.enable_rank c x).bind (GenFn.DArray.enable_rank c) = GenFn.DArray.enable_rank c x) ∧
+    (∀ x : DA, x.bv.Inv → x.bv.len < 2^63 →
+      (GenFn.DArray.enable_select0 c x).bind (GenFn.DArray.enable_select0 c) = GenFn.DArray.enable_select0 c x) ∧
+    (∀ e : EF, e.high.bv.Inv → e.high.bv.len < 2^63 →
+      (GenFn.EliasFano.enable_rank c e).bind (GenFn.EliasFano.enable_rank c) = GenFn.EliasFano.enable_rank c e) :=
+  ⟨fun x y h hl hx hy => GenEq.gen_select1_hints_idem c x y h hl hx hy,
+   fun x y h hl hx hy => GenEq.gen_select0_hints_idem c x y h hl hx hy,
+   fun x h hl => GenEq.gen_da_enable_rank_idem c x h hl, fun x h hl => GenEq.gen_da_enable_select0_idem c x h hl,
+   fun e h hl => GenEq.gen_ef_enable_rank_idem c e h hl⟩
 end Sucds.C19Gen
